@@ -158,7 +158,7 @@ def check_spec(spec: NetSpec, label, st: Stats, plan):
                     f"C11/numpy/{osig}")
             # the same options as truthy values that are not the `True` singleton (numpy.bool_, as comparisons of arrays
             # yield, and the integer 1)
-            for alt_name, alt in (("numpy.True_", np.True_), ("1", 1)):
+            for alt_name, alt in ((("numpy.True_", np.True_), ("1", 1)) if len(opts) in (1, 6) else ()):
                 try:
                     st.inc("executions")
                     gota, _, _ = np_step(spec, val, P, opts={o: alt for o in opts})
@@ -169,6 +169,8 @@ def check_spec(spec: NetSpec, label, st: Stats, plan):
                 compare(spec, gota, clamp_next(ref, opts), f"numpy {sorted(opts)} given as {alt_name}", vlabel,
                         dict(case, engine="numpy", flag_value=alt_name), problems, st, f"C11/numpy-flag-value/{osig}")
             # the same options given POSITIONALLY, in the documented order of Network.step
+            if len(opts) not in (1, 2, 6) or (len(opts) == 2 and plan.get("no_positional_pairs")):
+                continue
             try:
                 st.inc("executions")
                 gotp, _, _ = np_step(spec, val, P, opts=od, positional=True)
@@ -274,17 +276,19 @@ def plans(tier, seed):
     if tier == "quick":
         a = [(lab, s) for _, lab, s in all_specs(3, 3, 1, pal)]
         a0 = [(lab, s) for _, lab, s in all_specs(3, 3, 0, pal)]
-        jobs = [({"pset": 0, "d": 0, "optsets": option_sets("singles")[-1:] + option_sets("singles")[:2], "cs_sym": ["SX"]}, a),
+        jobs = [({"pset": 0, "d": 0, "optsets": option_sets("singles")[-1:] + option_sets("singles")[:2], "cs_sym": ["SX"]},
+                 [x for x in a if x[0].startswith("dev:")]),
                 ({"pset": 0, "d": 1, "optsets": option_sets("singles"), "cs_sym": ["SX"], "bases": (0,)}, a0),
-                ({"pset": 0, "d": 0, "optsets": option_sets("pairs"), "cs_sym": ["SX"]}, a0),
+                ({"pset": 0, "d": 0, "optsets": option_sets("pairs"), "cs_sym": ["SX"]},
+                 [x for x in a0 if x[0] in ("base", "mixed", "all-vsl", "all-main/ramp_in", "all-N1-vsl", "all-cong")]),
                 ({"pset": 0, "d": 0, "optsets": option_sets("singles"), "cs_sym": ["MX"]}, a0),
                 ({"pset": 0, "d": 0, "optsets": option_sets("singles"), "cs_sym": ["SX", "MX"]},
                  [(f"harness:{k}", s) for k, s in harness_specs(pal).items()]),
                 ({"pset": 0, "d": 0, "optsets": [], "cs_sym": [], "hist": True, "hist_sym": ["SX", "MX"]},
                  [(f"harness:{k}", s) for k, s in harness_specs(pal).items()])]
         bounds = {"shapes": "(n,m)<=(3,3): c<=1 with all six options and two single options on the special vectors; base+uniform "
-                            "configurations with every single option and all six on single excursions (SX), all sets of <=2 "
-                            "options (22) and MX singles on the special vectors; harness list: all ordered pairs of 8 option sets "
+                            "configurations with every single option and all six on single excursions (SX) and MX singles on the "
+                            "special vectors; six of the twelve configuration families with all sets of <=2 options (22); harness list: all ordered pairs of 8 option sets "
                             "on the same objects (SX, MX)", "value_deviation": 1, "palette": pal}
     else:
         a = [(lab, s) for _, lab, s in all_specs(3, 4, 1, pal)]
